@@ -84,6 +84,11 @@ CHECKS = {
    technique="the same exhaustive map-order x input-sequence enumeration; kept set read back through the public API and compared with an independent normalisation model",
    text="For every input sequence and every iteration order of the loops in NewWordList the kept set (read out by generating one-word passwords for every index, plus their capitalised forms) must equal the model's normalisation, Size() must match, the caller's slice must be untouched and the empty list rejected.",
    note="As C08."),
+ "C15": dict(
+   engine="E4-sequences", category="model_checking", ref="§3 C15, §1 E4",
+   technique="exhaustive enumeration of all API-call/field-update sequences up to depth 4-5 over 18 operations on live values, with a differential oracle (same call on freshly built values, same scripted random stream), a snapshot oracle and a reference-model oracle",
+   text="Every sequence of queries (Generate/Entropy/Alphabet/SuccessProbability, separator functions) and caller-side updates (including an in-place edit of the RequireSets slice) up to the depth bound is executed; after each query the caller-visible state must equal its snapshot, the result and bytes consumed must equal those of the same call on freshly constructed values, and the result must fit the model evaluated on the current fields (which catches state cached outside the values).",
+   note="Depth bound 4 (quick) / 5 (thorough); instrumented build so that word order of freshly built lists is canonical; no state hashing (plain sequence enumeration)."),
 }
 
 PENDING_REASON = "check not built yet in this session (planned in DESIGN.md §3; will be claimed when its checker exists)"
@@ -121,6 +126,7 @@ def main():
             dict(name="E1-cells", path="/verif/harness/checks/cells.go", serves_properties=["C02","C03","C04","C05","C06","C11","C13","C18"], kind_free_text="stateless DFS over announced draw outcomes (tape explorer) with exact rational leaf masses"),
             dict(name="E1-faults", path="/verif/harness/checks/c09.go", serves_properties=["C09"], kind_free_text="fault injector on the scripted reader: error/short-read at every read position"),
             dict(name="E2-maporder", path="/verif/harness/instrument/instrument.go", serves_properties=["C08","C10"], kind_free_text="AST instrumenter (map ranges -> verifrt.MapKeys, optional scheduling points) + go build -overlay + DFS over all iteration orders"),
+            dict(name="E4-sequences", path="/verif/harness/checks/c15.go", serves_properties=["C15"], kind_free_text="explicit enumeration of operation sequences on live recipe values with differential + snapshot + model oracles"),
             dict(name="E-config", path="/verif/harness/checks/c07.go", serves_properties=["C07","C12","C16"], kind_free_text="exhaustive enumeration of recipe configurations (no randomness involved)"),
         ],
         checks=checks,
